@@ -597,8 +597,11 @@ impl Runner {
                 }
             }
             Action::TxFail { ops, call } => {
-                // run as a committing transaction with an injected fault; it must return an error
-                // and, failing this early, leave the committed state exactly as it was
+                // run as a committing transaction with an injected fault; it must return an error.
+                // call < 1000: the call-th I/O call fails (used with small values: nothing reached
+                // the header, the committed state must be exactly as before);
+                // call >= 1000: the (call-1000)-th fsync fails: the outcome may be the pre- or the
+                // post-state, whichever it is must be complete and later commits must work
                 let before_model = self.model.clone();
                 self.fault_next_commit = Some(crate::iosim::Fault { call_index: *call, mode: crate::iosim::FaultMode::Errno(libc::EIO) });
                 let inner = self.step(&Action::Tx { ops: ops.clone(), commit: true }, &Oracles::NONE);
@@ -607,7 +610,8 @@ impl Runner {
                 if self.poisoned {
                     return out;
                 }
-                if self.pending_post.take().is_none() && self.last_fault_fired {
+                let post = self.pending_post.take();
+                if post.is_none() && self.last_fault_fired {
                     out.push(Violation::new("commit_ok_despite_io_error", "the failing commit did not return an error"));
                 }
                 if !self.last_fault_fired {
@@ -615,7 +619,21 @@ impl Runner {
                     self.check_committed_state(or, &what, &mut out);
                     return out;
                 }
-                self.model = before_model;
+                self.model = before_model.clone();
+                if *call >= 1000 {
+                    if let Some(post) = post {
+                        let db = self.db_static();
+                        match guarded(|| db.tx(false).map(|tx| real::dump_tx(&tx))) {
+                            Ok(Ok(Ok(d))) if d.same_contents(&post) => self.model = post,
+                            Ok(Ok(Ok(d))) if d.same_contents(&before_model) => {}
+                            other => {
+                                out.push(Violation::new("half_applied", format!("after the failed commit neither the pre- nor the post-state is shown: {:?}", other.map(|x| x.map(|y| y.map(|m| m.render().chars().take(200).collect::<String>()))))));
+                                self.poisoned = true;
+                                return out;
+                            }
+                        }
+                    }
+                }
                 self.check_committed_state(or, &what, &mut out);
             }
             Action::RoTx { ops } => {
